@@ -126,9 +126,15 @@ def hier_proposals(exprs, muts, work_c=60):
     objects; .result is the successor input or None."""
     from ddsmt import nodes, smtlib
     from ddsmt.mutator_utils import Simplification, apply_simp
-    smtlib.collect_information(exprs)
     n = count_nodes(exprs)
     limit = work_c * (n + 10)**2
+    try:
+        metered(lambda: smtlib.collect_information(exprs), limit * 4)
+    except Budget:
+        p = Proposal('collect_information', 'tables', None)
+        p.error = ('budget', 'collect_information')
+        yield p
+        return
     for node in list(nodes.bfs(exprs)):
         for m in muts:
             name = type(m).__name__
@@ -139,7 +145,7 @@ def hier_proposals(exprs, muts, work_c=60):
                 except Budget:
                     p.error = ('budget', 'filter')
                     yield p
-                    continue
+                    return
                 except Exception as e:  # noqa
                     p.error = ('filter', e)
                     yield p
@@ -160,7 +166,7 @@ def hier_proposals(exprs, muts, work_c=60):
                     p = Proposal(name, kind, node)
                     p.error = ('budget', kind)
                     yield p
-                    continue
+                    return
                 except Exception as e:  # noqa
                     p = Proposal(name, kind, node)
                     p.error = (kind, e)
@@ -173,7 +179,7 @@ def hier_proposals(exprs, muts, work_c=60):
                     except Budget:
                         p.error = ('budget', kind)
                         yield p
-                        break
+                        return
                     except Exception as e:  # noqa
                         p.error = (kind, e)
                         yield p
@@ -198,6 +204,8 @@ def hier_proposals(exprs, muts, work_c=60):
                                            limit)
                     except Budget:
                         p.error = ('budget', 'apply')
+                        yield p
+                        return
                     except Exception as e:  # noqa
                         p.error = ('apply', e)
                     yield p
@@ -321,8 +329,20 @@ class Search:
             if self.depth is not None and depth >= self.depth:
                 continue
             props = list(hier_proposals(exprs, muts))
-            if self.with_ddmin:
+            overrun = any(p.error and p.error[0] == 'budget' for p in props)
+            if self.with_ddmin and not overrun:
                 props += list(ddmin_proposals(exprs))
+                overrun = any(p.error and p.error[0] == 'budget'
+                              for p in props)
+            if overrun:
+                # one hanging call is a verdict; do not pay for it again
+                # at every other node and state
+                self.capped = True
+                for p in props:
+                    if self.on_proposal and p.error and \
+                            p.error[0] == 'budget':
+                        self.on_proposal(self, exprs, depth, p)
+                break
             for p in props:
                 if self.on_proposal:
                     self.on_proposal(self, exprs, depth, p)
